@@ -264,18 +264,25 @@ func signSet(k kref, set []dns.RR) *dns.RRSIG {
 type timedSig struct {
 	key              kref
 	notBefore, after int64
+	signer           int // Signer's Name field: 0 = "." (the zone of the RRset), n > 0 another name
 }
 
-func (t timedSig) valid() bool { return t.notBefore <= 0 && 0 <= t.after }
+// valid: RFC 4035 §5.3.1 — inside the validity window and the Signer's Name is the zone that
+// contains the RRset (for the root DNSKEY RRset: ".").
+func (t timedSig) valid() bool { return t.notBefore <= 0 && 0 <= t.after && t.signer == 0 }
 
 func parseTimed(s string) []timedSig {
 	var out []timedSig
 	for _, e := range strings.Split(s, ",") {
 		p := strings.Split(e, "/")
-		if len(p) != 3 {
+		if len(p) != 3 && len(p) != 4 {
 			panic("bad ts= entry " + e)
 		}
-		out = append(out, timedSig{key: parseRef(p[0]), notBefore: vlib.AtoI64(p[1]), after: vlib.AtoI64(p[2])})
+		t := timedSig{key: parseRef(p[0]), notBefore: vlib.AtoI64(p[1]), after: vlib.AtoI64(p[2])}
+		if len(p) == 4 {
+			t.signer = vlib.Atoi(p[3])
+		}
+		out = append(out, t)
 	}
 	return out
 }
@@ -294,6 +301,7 @@ func timedRRSIGs(fetch []kref, timed []timedSig) []dns.RR {
 	now := time.Now()
 	for _, t := range timed {
 		sig := newSig(t.key, now.Add(time.Duration(t.notBefore)*time.Second), now.Add(time.Duration(t.after)*time.Second))
+		sig.SignerName = ownerName(t.signer)
 		if err := sig.Sign(getKey(t.key.id).signer(), set); err != nil {
 			panic(err)
 		}
